@@ -114,9 +114,9 @@ Section Order.
 
   (* ---- bounds respect the order ---- *)
 
-  Lemma in_lo_up {V : Type} lo a b : in_lo K cmp lo a = true -> cmp a b <> Gt -> in_lo K cmp lo b = true.
+  Lemma in_lo_up lo a b : in_lo K cmp lo a = true -> cmp a b <> Gt -> in_lo K cmp lo b = true.
   Proof.
-    clear V. destruct lo as [k|k|]; simpl; intros H1 H2; auto.
+    destruct lo as [k|k|]; simpl; intros H1 H2; auto.
     - apply is_ge_true in H1. apply is_ge_true. eapply c_le_trans; eauto.
     - apply is_gt_true in H1. apply is_gt_true. eapply c_lt_le_trans; eauto.
   Qed.
@@ -148,7 +148,7 @@ Proof.
   - intros a. apply (c_refl cmp L).
   - intros a b. apply (c_sym cmp L).
   - intros a b c H1 H2. eapply (c_lt_trans cmp L); eauto.
-  - intros a b c H. apply (c_eq_r cmp L). exact H.
+  - intros a b c H. apply (c_eq_r cmp L). apply (c_eq_sym cmp L). exact H.
 Qed.
 
 Lemma dcmp_laws {K} (cmp : K -> K -> comparison) rev : cmp_laws cmp -> cmp_laws (dcmp cmp rev).
@@ -173,6 +173,13 @@ Proof.
   destruct b as [c|c|]; simpl; auto.
   - apply (is_le_ge (fun x y => cmp y x) (flip_laws cmp L)).
   - apply (is_lt_gt (fun x y => cmp y x) (flip_laws cmp L)).
+Qed.
+
+Lemma filter_all_true {A} (f : A -> bool) (l : list A) :
+  (forall x, In x l -> f x = true) -> filter f l = l.
+Proof.
+  induction l as [|a l IH]; simpl; intros H; auto.
+  rewrite (H a (or_introl eq_refl)). f_equal. apply IH. intros x Hx. apply H. auto.
 Qed.
 
 (* ---- strictly sorted association lists ---- *)
@@ -255,7 +262,7 @@ Section KSorted.
       + constructor; auto. constructor; [exact E|].
         rewrite Forall_forall in *. intros x Hx. specialize (Hf x Hx).
         unfold klt in *; simpl in *. eapply (c_lt_trans cmp laws); eauto.
-      + constructor; auto. apply Forall_klt_put; auto.
+      + constructor; [apply IH; exact Hr|]. apply Forall_klt_put; auto.
         simpl. apply (c_gt_lt cmp laws). exact E.
   Qed.
 
@@ -270,7 +277,7 @@ Section KSorted.
     induction m as [|[k' v'] r IH]; simpl; intros Hs; auto.
     apply ksorted_cons_inv in Hs as Hs'. destruct Hs' as [Hr Hf].
     destruct (cmp k k'); auto.
-    constructor; auto. apply Forall_klt_del; auto.
+    constructor; [apply IH; exact Hr|]. apply Forall_klt_del; auto.
   Qed.
 
   (* membership of a key class *)
@@ -336,7 +343,7 @@ Section KSorted.
           rewrite Forall_forall in *. intros x Hx. specialize (Hf x Hx). unfold klt in Hf.
           apply (c_lt_le cmp). eapply (c_le_lt_trans cmp laws); eauto.
         * simpl. rewrite E. f_equal.
-          apply forallb_filter_id. rewrite forallb_forall. intros x Hx.
+          apply filter_all_true. intros x Hx.
           rewrite Forall_forall in Hf. specialize (Hf x Hx). unfold klt in Hf.
           apply (is_ge_true cmp laws).
           assert (Hp : cmp p (fst a) <> Gt) by (apply (is_ge_true cmp laws); exact E).
@@ -371,7 +378,8 @@ Proof.
       - constructor; constructor.
       - inversion Hl; subst. inversion Hx; subst. constructor; auto.
         rewrite Forall_app. split; auto. }
-    apply G; auto.
-    rewrite Forall_forall in *. intros y Hy. apply in_rev in Hy. specialize (Hf y Hy).
-    exact Hf.
+    apply G.
+    + apply IH. exact Hr.
+    + rewrite Forall_forall in *. intros y Hy. apply in_rev in Hy. specialize (Hf y Hy).
+      exact Hf.
 Qed.
